@@ -647,12 +647,23 @@ impl Monitor for C03 {
                     if written.len() > 16384 {
                         rep.inc("choice:document_larger_than_writer_buffer");
                     }
+                    if doc.clauses.iter().any(|c| c.1.len() > 4096) {
+                        rep.inc("choice:clause_with_more_than_4096_literals");
+                    }
                     let items = doc.items();
                     self.judge(rep, cfg, &written, &items, "write(value)->parse", items.len() >= 2);
                 }
                 PK::Aag | PK::Aig => {
                     let binary_shape = pk == PK::Aig || rng.chance(1, 3);
-                    let doc = gen::gen_aiger(rng, binary_shape, cfg.lt, size.min(300));
+                    // large documents: one section with more entries than any reservation cap (4096)
+                    let long = if size >= 2000 && rng.chance(2, 3) {
+                        let sec = if cfg.lt == 0 { 3 + rng.usize(7) } else { rng.usize(10) };
+                        rep.inc(&format!("choice:aiger_long_section:{}", gen::AIGER_LONG_SECTIONS[sec]));
+                        Some((sec, gen::long_count(rng)))
+                    } else {
+                        None
+                    };
+                    let doc = gen::gen_aiger_ext(rng, binary_shape, cfg.lt, size.min(300), long);
                     let h = doc.header_numbers();
                     let needed = 9 - h.iter().rev().take_while(|&&x| x == 0).count().min(4);
                     rep.inc(&format!("choice:header_fields_written:{}", needed.max(5)));
@@ -756,6 +767,19 @@ impl Monitor for C03 {
                         }
                     }
                     for line in &doc.lines {
+                        match line {
+                            BLine::Node {
+                                kind: BKind::Justice(ns),
+                                ..
+                            } if ns.len() > 4096 => rep.inc("choice:btor_justice_with_more_than_4096_nodes"),
+                            BLine::Node {
+                                kind: BKind::Const(_, _, d),
+                                ..
+                            } if d.len() > 4096 => rep.inc("choice:btor_constant_with_more_than_4096_digits"),
+                            BLine::Node { symbol: Some(x), .. } if x.len() > 16384 => rep.inc("choice:btor_symbol_longer_than_chunk"),
+                            BLine::Node { comment: Some(x), .. } if x.len() > 16384 => rep.inc("choice:btor_comment_longer_than_chunk"),
+                            _ => {}
+                        }
                         if let BLine::Node { kind, symbol, comment, .. } = line {
                             let k = match kind {
                                 BKind::SortBitvec(_) => "sort_bitvec",
